@@ -127,10 +127,16 @@ func (s *sessRun) randomToken(rng *mrand.Rand) string {
 		b := make([]byte, 200+rng.Intn(6000)) // arbitrary bytes
 		rng.Read(b)
 		return string(b)
-	case 8: // looks like base64 of gzip (what the store itself produces)
+	case 8: // looks like base64 of gzip (what the store itself produces); short, or — with incompressible content — longer than a chunk
 		var buf bytes.Buffer
 		gz := gzip.NewWriter(&buf)
-		gz.Write([]byte(strings.Repeat("inner", 50+rng.Intn(500))))
+		if rng.Intn(2) == 0 {
+			gz.Write([]byte(strings.Repeat("inner", 50+rng.Intn(500))))
+		} else {
+			b := make([]byte, 1200+rng.Intn(6000))
+			rng.Read(b)
+			gz.Write(b)
+		}
 		gz.Close()
 		return base64.StdEncoding.EncodeToString(buf.Bytes())
 	case 9: // base64 that is not gzip
